@@ -181,10 +181,12 @@ fn wrap(link: u8, ip: &[u8]) -> Vec<u8> {
         // near misses of the one NULL/loopback header the analyzers accept (1e 00 ..): nobody reads them - if one copy of the
         // parser starts to, its filter must too
         12 => [vec![0x1e, 0x01, 0, 0], ip.to_vec()].concat(),
-        _ => [vec![0x1f, 0x00, 0, 0], ip.to_vec()].concat(),
+        13 => [vec![0x1f, 0x00, 0, 0], ip.to_vec()].concat(),
+        // Ethernet as a capture often shows it: padded to 60 bytes, frame check sequence behind the IP packet
+        _ => pkt::ethernet_with_trailer(ip),
     }
 }
-const LINKS: [&str; 14] = ["raw", "ethernet", "null-1e", "null-02", "null-1c", "ethernet-macs-like-ipv4-header", "ethernet-macs-like-ipv6-header", "ethernet-macs-like-loopback-1e-ipv4", "ethernet-macs-like-loopback-1e-ipv6", "ethernet-macs-like-loopback-02", "vlan-8100", "vlan-88a8", "null-near-miss-1e-01", "null-near-miss-1f-00"];
+const LINKS: [&str; 15] = ["raw", "ethernet", "null-1e", "null-02", "null-1c", "ethernet-macs-like-ipv4-header", "ethernet-macs-like-ipv6-header", "ethernet-macs-like-loopback-1e-ipv4", "ethernet-macs-like-loopback-1e-ipv6", "ethernet-macs-like-loopback-02", "vlan-8100", "vlan-88a8", "null-near-miss-1e-01", "null-near-miss-1f-00", "ethernet-padded-with-frame-check-sequence"];
 
 pub fn traces() -> Vec<Trace> {
     let mut v = vec![];
@@ -196,7 +198,7 @@ pub fn traces() -> Vec<Trace> {
             if v6 && ihl != 5 {
                 continue;
             }
-            for link in 0..14u8 {
+            for link in 0..15u8 {
                 for (cport, sport) in [(40000u16, 80u16), (40005, 443)] {
                     let mk = |from_client: bool, flags: u8, seq: u32, payload: &[u8]| -> Vec<u8> {
                         let (src, sp, dst, dp) = if from_client { (1u8, cport, 2u8, sport) } else { (2, sport, 1, cport) };
